@@ -190,8 +190,23 @@ func walkGen(r *rand.Rand, count int, emit func(op string, args ...string)) {
 			skips = append(skips, []byte([]string{"src/lib", "a/b", "foo/bar", "/a", "/src/foo", "oo/bar", "b"}[r.Intn(7)]))
 		}
 		root := "."
-		if r.Intn(8) == 0 && len(dirs) > 0 {
+		if r.Intn(6) == 0 && len(dirs) > 0 {
 			root = strings.SplitN(dirs[0], "/", 2)[0]
+			// the same directory under other spellings: the candidates carry the root as it was given
+			// (without trailing separators and one leading "./"), whatever it takes to get there
+			if !strings.HasPrefix(root, ".") && r.Intn(2) == 0 {
+				nested := ""
+				for _, d := range dirs {
+					if strings.HasPrefix(d, root+"/") && !strings.Contains(d[len(root)+1:], "/") && !strings.HasPrefix(d[len(root)+1:], ".") {
+						nested = d[len(root)+1:]
+					}
+				}
+				forms := []string{"./" + root, root + "/", root + "//", root + "/../" + root, root + "/./../" + root}
+				if nested != "" {
+					forms = append(forms, root+"/./"+nested, root+"/"+nested+"/..", root+"//"+nested, root+"/"+nested+"/../"+nested)
+				}
+				root = forms[r.Intn(len(forms))]
+			}
 		}
 		file, dir := r.Intn(4) > 0, r.Intn(3) == 0
 		if !file && !dir {
